@@ -86,4 +86,5 @@ def witnesses():
     return {"C02-nested-list-spacing": P.fmt(o1, width=88, semantic=False) != o1,
             "C02-adjacent-quotes-second-pass": P.fmt(q1, smartquotes=True, width=88) != q1,
             "C02-reference-label-across-lines": (lambda x: P.fmt(x, width=88, semantic=False) != x)(P.fmt("[foo\nbar]\n\n[foo bar]: /u\n", width=88, semantic=False)),
+            "C02-unbold-nested-strong-two-passes": (lambda x: P.fmt(x, width=88, cleanups=True) != x)(P.fmt("### **__y__**\n", width=88, cleanups=True)),
             "C02-tag-then-list-narrow": (lambda x: P.fmt(x, width=4, semantic=False) != x)(P.fmt("a {% t %}\n- b\n", width=4, semantic=False))}
